@@ -102,9 +102,10 @@ def check_id(value, version, want_type=None):
 
 # ---- validator ------------------------------------------------------------------------------------------
 class V(object):
-    def __init__(self, version):
+    def __init__(self, version, written=False):
         self.sp = spec(version)
         self.version = version
+        self.written = written      # judging what the LIBRARY wrote (not input it was given): "minimum precision MUST be milliseconds" applies without doubt
         self.out = []
 
     def add(self, path, rule, msg):
@@ -172,8 +173,10 @@ class V(object):
             fr = p.get("fraction", "any")
             if fr == "exact3" and n != 3:
                 self.add(path, "timestamp-precision", "needs exactly three fraction digits: %r" % v)
-            # "min3" (2.1 created/modified): whether fewer than three digits is invalid INPUT is not clear-cut in 2.1; not enforced here
-            # (the written form is pinned by C15's frozen per-property precision table instead)
+            # "min3" (2.1 created/modified): whether fewer than three digits is invalid INPUT is not clear-cut in 2.1; not enforced on input
+            # (the written form is pinned by C15's frozen per-property precision table, and here when a WRITTEN document is judged)
+            if fr == "min3" and self.written and n < 3:
+                self.add(path, "timestamp-precision", "written with fewer than three fraction digits: %r" % v)
             return
         if k == "binary":
             if not isinstance(v, str):
@@ -348,8 +351,8 @@ def _resolves(v, sel):
     return True
 
 
-def validate(o, version, key=None):
-    v = V(version)
+def validate(o, version, key=None, written=False):
+    v = V(version, written)
     if key:
         v.obj(o, key, "", {"type": spec(version).classes[key].get("type")})
     else:
